@@ -351,6 +351,7 @@ package cache
 //@   assigns cache.MemoryCache cache.FileCache cache.EntryMetadata cache.memoryInternalEntry map_map_cache.CacheKey atomic.Int64 ghost:mapsum ghost:fsinode ghost:jsize ghost:jexp
 //@   requires j.cfg != nil && aset(j.cfg.Cache.MaxCacheSize.value)
 //@   ghost callsite-requires getCacheSize true
+//@   ghost callsite-requires [C13] evict arg_maxCacheBytes == cfgval(j.cfg.Cache.MaxCacheSize)
 
 // Each cleanup cycle removes exactly the expired entries: a key is handed to
 // removeEntry only if the entry stored for it NOW (under its shard lock) is expired.
